@@ -82,6 +82,12 @@ def check_triple(res, ns, nswin, overlap, WG, fs=30000.0):
             arrs = list(wg.slice_array(sig))
             ok = len(arrs) == n and all(np.array_equal(a, sig[:, f:l]) for a, (f, l) in zip(arrs, fl))
             res.check(ok, "slice_array", f"{T}: slice_array disagrees with firstlast")
+            # along any axis of a 2-D / 3-D array (the signal need not lie on the last one)
+            for shp, ax in (((ns, 3), 0), ((ns, 3), -2), ((2, ns, 3), 1), ((2, 3, ns), 2), ((3, ns), -1)):
+                sig = np.arange(int(np.prod(shp))).reshape(shp)
+                arrs = list(wg.slice_array(sig, axis=ax))
+                ok = len(arrs) == n and all(np.array_equal(a, np.take(sig, np.arange(f, l), axis=ax)) for a, (f, l) in zip(arrs, fl))
+                res.check(ok, "slice_array:axis", f"{T}: slice_array(axis={ax}) on shape {shp} disagrees with firstlast", counter="slice_array_axes")
     except Exception as e:
         res.exception("slice:exception", e, f"{T}")
     # valid sub-windows: exact partition
